@@ -929,6 +929,12 @@ class _ExtendedSymplectic(_Integrator):
         """
         # Validate inputs and system compatibility
         self.validate_inputs(system, y0, t_vals)
+
+        # Common zero-span short-circuit (as in the Runge-Kutta integrators);
+        # a zero step would otherwise divide by zero in the omega heuristic.
+        constant_sol = self._maybe_constant_solution(system, y0, t_vals)
+        if constant_sol is not None:
+            return constant_sol
         
         # Extract required data from the Hamiltonian system
         jac_H_typed = system.jac_H
